@@ -26,10 +26,15 @@ func valueFieldByName(v reflect.Value, fields []string) (out reflect.Value, ok b
 		v = v.Elem()
 	}
 
+	// only structures have fields
+	if len(fields) == 0 || v.Kind() != reflect.Struct {
+		return out, false
+	}
+
 	out = v.FieldByName(fields[0])
 
-	// if pointer we dereference
-	if out.Kind() == reflect.Ptr {
+	// if pointer we dereference, unless the path stops at the pointer
+	if out.Kind() == reflect.Ptr && len(fields) > 1 {
 		if out.IsZero() {
 			out = reflect.New(out.Type().Elem())
 		} else {
@@ -38,7 +43,7 @@ func valueFieldByName(v reflect.Value, fields []string) (out reflect.Value, ok b
 		return valueFieldByName(out, fields[1:])
 	}
 
-	if out.Kind() == reflect.Struct && len(fields) > 1 {
+	if len(fields) > 1 {
 		return valueFieldByName(out, fields[1:])
 	}
 
@@ -49,8 +54,9 @@ func fieldByName(o Object, fpath []string) (i interface{}, ok bool) {
 	v := reflect.ValueOf(o)
 
 	v, ok = valueFieldByName(v, fpath)
-	if !ok {
-		return nil, ok
+	// value of unexported fields cannot be retrieved
+	if !ok || !v.CanInterface() {
+		return nil, false
 	}
 
 	return v.Interface(), ok
